@@ -11,6 +11,7 @@ from __future__ import annotations
 
 import collections
 import copy
+import json
 import multiprocessing
 import os
 import pickle
@@ -21,11 +22,13 @@ import time
 from pathlib import Path
 
 import pfimport  # noqa: F401
+import c14_preempt as pre
+import framework
 from pfimport import exc_enum
 from pipefunc.cache import DiskCache, HybridCache, LRUCache, SimpleCache
 
 PID = "C14"
-PROPS = ["PfModel.Props.C14"]
+PROPS = ["PfModel.Props.C14", "PfModel.Props.C14Shared", "PfModel.Props.C14Score"]
 DRIVER = "C14"
 RULE = ("(1) explicit-state exploration: breadth-first over the abstract states of a Python transcription of the policies (used "
         "only to find a shortest history to every reachable state, never for a verdict), 3-4 keys, max_size 1..3; every "
@@ -34,25 +37,74 @@ RULE = ("(1) explicit-state exploration: breadth-first over the abstract states 
         "(put-heavy, re-puts of resident keys, clear, reopen for DiskCache with changed max_size / LRU size); (3) shared=True "
         "caches pickled into 2 forked worker processes, every operation issued by a harness-chosen process, probes from the "
         "parent; (4) separate streams: zero durations (HybridCache), unhashable keys, max_size=0, pickling a non-shared cache. "
-        "A case is non-trivial when it contains a put that evicts or re-puts a resident key, or a hit; distinct by its JSON")
+        "(5) preemption stream (shared LRUCache / HybridCache / DiskCache with lru_shared): the lock and the shared containers of one "
+        "cache object are wrapped (c14_preempt.py); for a set-up history H, an operation P, a peer operation Q and a point n, Q runs to "
+        "completion in a real second process exactly at the n-th preemption point of P (before an acquire, after a release, before a "
+        "container access made without the lock; for peers that a dry run shows to be lock-free also before every access made INSIDE the "
+        "critical section); (result of P, result of Q, probe, epilogue put/gets, final probe) must equal the model's answers for H+[P,Q]+E or "
+        "H+[Q,P]+E; all (P, Q, n) over get/put/has of victim / other / new key, len, clear, max_size 1..2, empty / non-full / full caches "
+        "within the budget, hot pairs (evicting or clearing peer against get/put) first; (6) schedules of the Lean process model "
+        "(PF.Cache.Shared.exec) whose linearisation is replayed on the real cache from the processes the model names; (7) every fourth "
+        "put stores a falsy value (0, '', None, (), False, 0.0, b''); exploration cases end with a drain of max_size fresh puts. "
+        "A case is non-trivial when it contains a put that evicts or re-puts a resident key, or a hit (preemption: an evicting/clearing "
+        "peer against a get/put); distinct by its JSON")
 ASSUMPTIONS = [
-    "operations are atomic in the model; shared=True is exercised with harness-serialised interleavings from 3 processes plus an "
-    "invariants-only concurrent soak (thorough) — the check-then-lock windows of truly concurrent callers are not proved",
+    "shared=True: C14_shared_linearisable proves that ANY interleaving of processes whose operations are 'prelude; one critical section "
+    "of container accesses under the lock; epilogue' equals the sequential history in lock-acquisition order. That LRUCache/HybridCache "
+    "operations have this shape (every shared-container access inside one `with self._cache_lock:`) and that manager.Lock is a mutex is "
+    "assumed, and checked on the implementation by the preemption stream at single-preemption granularity (one peer operation at one "
+    "point; not two peers, not a peer preempted in turn) plus the invariants-only concurrent soak",
+    "the preemption stream resets its cache with the public clear() between runs (a manager-backed cache costs ~0.25 s to create); a "
+    "failing run is repeated on a new cache before it is reported",
+    "DiskCache from several processes: only the shared in-memory LRU is instrumented; file-system steps (exists/open/stat/unlink/glob) "
+    "are not preemption points. Not promised and not checked: concurrent writers of one file, a reader racing an unlink "
+    "(KF-C14-disk-put-not-atomic records the put/clear window that the LRU points do expose)",
     "HybridCache scores are exact rationals in the model and floats in the code: an eviction whose two lowest scores are closer "
     "than 1e-9 relative without being computed from identical (count, duration) pairs ends the comparison of that case (counted)",
     "DiskCache 'oldest file' is st_ctime_ns order; the harness spaces file writes until a probe file's ctime has advanced "
     "(granularity measured at start-up and reported), so that 'oldest' is unambiguous; the model uses a logical clock",
-    "values are never None (get returns None for a miss); keys are picklable hashable atoms/tuples",
+    "values are ('v', n) tuples or one of the falsy values 0, '', None, (), False, 0.0, b''; a stored None is legal (`in` says present, get "
+    "returns None, which is the value); numbers that stand for the same falsy value are not told apart; keys are picklable hashable atoms/tuples",
     "DiskCache.__contains__/get consult the in-memory LRU first, so a key whose file was evicted stays present while the "
     "LRU holds it: len counts files (documented: 'maximum number of cache files'), presence is LRU-or-file; modelled as such",
 ]
 
-KEYS = ["a", "b", ("c", 1), 3]          # index in this list = key number in the model
+KEYS = ["a", "b", ("c", 1), 3, "n4", ("n", 5), 6.5]          # index in this list = key number in the model (4.. are the fresh keys of a drain)
 WEIGHTS = [(1, 1), (1, 0), (0, 1), (1, 3), (3, 1), (3, 7)]   # (wa, wd): access_weight = wa/(wa+wd), duration_weight = wd/(wa+wd)
 
 
+FALSY = [0, "", None, (), False, 0.0, b""]      # legal stored values that are falsy (None: `in` says present, get returns None = the value)
+
+
 def val(n):
-    return ("v", n)
+    """the Python value that stands for the model's value number n: every fourth number is one of the falsy values"""
+    return FALSY[(n // 4) % len(FALSY)] if n % 4 == 2 else ("v", n)
+
+
+def decode(r):
+    """canonical form of a value that came out of a cache: the number of a ("v", n) value, "F:<repr>" of a falsy one, None"""
+    if r is None:
+        return None
+    if isinstance(r, tuple) and len(r) == 2 and r[0] == "v":
+        return r[1]
+    if type(r) in (int, str, tuple, bool, float, bytes) and not r:
+        return "F:" + repr(r)
+    return f"garbled:{r!r}"
+
+
+def canon_n(n):
+    """the model's value number in the canonical form of `decode` (distinct numbers that stand for the same falsy value compare equal)"""
+    return None if n is None else decode(val(n))
+
+
+def canon_mstep(st):
+    """a step of the driver's answer with its value numbers in canonical form"""
+    st = dict(st)
+    if isinstance(st.get("o"), list) and st["o"][0] == "val":
+        st["o"] = ["val", canon_n(st["o"][1])]
+    if isinstance(st.get("values"), list):
+        st["values"] = [canon_n(v) for v in st["values"]]
+    return st
 
 
 # ------------------------------------------------------------------------------------------------ implementation side
@@ -157,7 +209,7 @@ def do_op(cache, kind, op):
             return "unit"
         if name == "get":
             r = cache.get(KEYS[op[1]])
-            return ["val", None if r is None else (r[1] if isinstance(r, tuple) and len(r) == 2 and r[0] == "v" else f"garbled:{r!r}")]
+            return ["val", decode(r)]
         if name == "has":
             return ["bool", bool(KEYS[op[1]] in cache)]
         if name == "len":
@@ -187,7 +239,7 @@ def probe(cache, kind, keys):
         out["len"] = len(cache)
         if kind in ("lru", "hybrid", "simple"):
             m = cache.cache
-            out["values"] = [(m[KEYS[i]][1] if KEYS[i] in m else None) for i in keys]
+            out["values"] = [(decode(m[KEYS[i]]) if KEYS[i] in m else None) for i in keys]
             if len(m) != out["len"]:
                 out["values"] = f"cache-property-size:{len(m)}"
     except Exception as e:  # noqa: BLE001
@@ -315,10 +367,13 @@ def run_impl(env: Env, case):
             if op[0] == "get":
                 was = op[1] in present_before
                 got = o[1]
-                if was != (got is not None):
-                    bad.append(f"step {i}: key {op[1]} reported {'present' if was else 'absent'} but get returned {got!r}")
-                elif got is not None and got != last_put.get(op[1]):
-                    bad.append(f"step {i}: get({op[1]}) returned {got!r}, most recent put was {last_put.get(op[1])!r}")
+                want = canon_n(last_put.get(op[1])) if was else None          # a stored None: present, and get returns None
+                if got != want:
+                    if (got is None) != (want is None):
+                        bad.append(f"step {i}: key {op[1]} reported {'present' if was else 'absent'} but get returned {got!r}"
+                                   + (f" (most recent put: {want!r})" if was else ""))
+                    else:
+                        bad.append(f"step {i}: get({op[1]}) returned {got!r}, most recent put was {want!r}")
             if op[0] == "has" and o[1] != (op[1] in present_before):
                 bad.append(f"step {i}: `in` answered {o[1]} for key {op[1]}, previous probe said {op[1] in present_before}")
             if op[0] == "len" and i > 0 and o[1] != steps[i - 1].get("len"):
@@ -444,7 +499,10 @@ def exploration_cases(ctx):
     for mx in (1, 2, 3):
         hs, n = explore("lru", (mx, ()), basic, 8 if thorough else 6, 100000)
         ctx.count(f"explore:lru:max{mx}:states", n)
-        cases += [{"kind": "lru", "max": mx, "keys": list(range(nk)), "ops": concretise(h), "src": "explore"} for h in hs]
+        # every case ends with a drain — max_size puts of fresh keys, presence probed after each — so that the recency ORDER the
+        # last operation left behind (not observable through `in`/len) decides observable evictions
+        drain = [("put", 4 + j, 0, 0) for j in range(mx)]
+        cases += [{"kind": "lru", "max": mx, "keys": list(range(nk + mx)), "ops": concretise(h + drain), "src": "explore"} for h in hs]
     hs, n = explore("simple", (), [("put", k, 0, 0) for k in range(3)] + [("get", k) for k in range(3)] + [("clear",)], 4, 1000)
     ctx.count("explore:simple:states", n)
     cases += [{"kind": "simple", "max": None, "keys": [0, 1, 2], "ops": concretise(h), "src": "explore"} for h in hs]
@@ -453,7 +511,9 @@ def exploration_cases(ctx):
             ops = [("put", k, 0, d) for k in range(3) for d in (1, 2)] + [("get", k) for k in range(3)] + [("clear",)]
             hs, n = explore("hybrid", (mx, w, ()), ops, 5 if thorough else 4, 6000 if thorough else 260)
             ctx.count(f"explore:hybrid:max{mx}:states", n)
-            cases += [{"kind": "hybrid", "max": mx, "weights": list(w), "keys": [0, 1, 2], "ops": concretise(h), "src": "explore"} for h in hs]
+            drain = [("put", 4 + j, 0, 1 + j) for j in range(mx)]       # the scores the last operation left behind decide these evictions
+            cases += [{"kind": "hybrid", "max": mx, "weights": list(w), "keys": [0, 1, 2] + [4 + j for j in range(mx)], "ops": concretise(h + drain),
+                       "src": "explore"} for h in hs]
     for mx in (1, 2):
         for lsz in (None, 1, 2):
             ops = ([("put", k, 0, 0) for k in range(3)] + [("get", k) for k in range(3)] + [("clear",), ("reopen", mx, lsz)]
@@ -574,8 +634,12 @@ def branches(ctx, case, msteps):
                     and len(before["state"]["dict"]) >= case["max"]:
                 tag += ":zero-total"
         elif op[0] == "get":
-            hit = st["o"][1] is not None
+            hit = op[1] in before["present"]
             tag = "get:hit" if hit else "get:miss"
+            if hit and st["o"][1] is None:
+                tag += ":stored-None"
+            elif hit and isinstance(st["o"][1], str):
+                tag += ":falsy"
             if kind == "disk" and hit and before["state"] is not None and before["state"]["lru"] is not None:
                 tag += ":lru" if op[1] in before["state"]["lru"]["dict"] else ":file"
         ctx.count(f"{kind}:{tag}")
@@ -587,7 +651,7 @@ def nontrivial(case, msteps):
     for op, st in zip(case["ops"], msteps):
         if op[0] == "put" and (op[1] in seen):
             return True
-        if op[0] == "get" and st["o"][1] is not None:
+        if op[0] == "get" and op[1] in seen:
             return True
         if op[0] == "put":
             seen.add(op[1])
@@ -602,7 +666,7 @@ def check_cases(ctx, env, cases):
     outs = ctx.lean([to_request(c) for c in cases])
     for case, (steps, bad), resp in zip(cases, impls, outs):
         model = resp["r"]
-        msteps = model["steps"]
+        msteps = [canon_mstep(st) for st in model["steps"]]
         ctx.count(f"case:{case['kind']}:{case.get('src', 'corpus')}{':shared' if case.get('shared') else ''}")
         ctx.count("transitions", len(steps))
         branches(ctx, case, msteps)
@@ -711,7 +775,7 @@ def soak_ops(cache, kind, seed, n):
                 cache.put(k, val(j), 1.0) if kind == "hybrid" else cache.put(k, val(j))
             elif r < 0.9:
                 v = cache.get(k)
-                if v is not None and not (isinstance(v, tuple) and v[0] == "v"):
+                if str(decode(v)).startswith("garbled"):
                     errs["garbled"] += 1
             elif r < 0.98:
                 k in cache  # noqa: B015
@@ -759,7 +823,498 @@ def soak(ctx, env):
                 w.call(i, "drop", env.n)
 
 
+# ------------------------------------------------------------------------------------------------ schedules of the process model
+def interleave_cases(ctx):
+    """Random schedules for the Lean process model (`PF.Cache.Shared.exec`: 3 processes, lock, critical sections of container
+    accesses).  The driver answers with the linearisation (who entered which critical section in which order) and re-evaluates
+    `C14_shared_linearisable` on it; the linearisation then runs on the real shared cache, every operation issued by the process
+    the model says (0 = this process, 1/2 = workers), through the ordinary comparison."""
+    rng = ctx.rng
+    metas, reqs = [], []
+    for _ in range(ctx.n(6, 40)):
+        kind, mx = rng.choice(["lru", "hybrid"]), rng.choice([1, 2, 2, 3])
+        sch, n = [], 400
+        for _ in range(rng.randint(15, 80)):
+            r, k = rng.random(), rng.randrange(4)
+            n += 1
+            op = ["put", k, n, rng.choice([1, 2, 3, 5])] if r < 0.5 else ["get", k] if r < 0.8 else ["has", k] if r < 0.9 else ["len"] if r < 0.96 else ["clear"]
+            sch.append([rng.randrange(3), op])
+        a = {"kind": kind, "max": mx, "schedule": sch}
+        if kind == "hybrid":
+            a["weights"] = list(rng.choice(WEIGHTS))
+        metas.append(a)
+        reqs.append({"m": "cache.interleave", "a": a})
+    cases = []
+    for a, out in zip(metas, ctx.lean(reqs)):
+        r = out["r"]
+        ctx.count("interleave:schedules")
+        ctx.count("interleave:critical-sections", len(r["lin"]))
+        ctx.count("interleave:blocked-or-overtaken", sum(1 for i, e in enumerate(r["log"]) if e[0] != i))
+        if not r["seq_ok"]:
+            ctx.violation({"stream": "interleave", **a}, "the process model's results differ from the sequential run of its linearisation "
+                          "(extraction sanity check of C14_shared_linearisable)", found_input=False, item="C14_shared_linearisable")
+            continue
+        case = {"kind": a["kind"], "max": a["max"], "keys": [0, 1, 2, 3], "ops": [e[1] for e in r["lin"]], "procs": [e[0] for e in r["lin"]],
+                "shared": True, "cloudpickle": True, "src": "interleave"}
+        if a["kind"] == "hybrid":
+            case["weights"] = a["weights"]
+        if case["ops"]:
+            cases.append(case)
+    return cases
+
+
+# ------------------------------------------------------------------------------------------------ preemption stream
+# One operation P of the parent process is preempted, at one of its preemption points (c14_preempt.py), by one operation Q that
+# a REAL second process (a worker holding a pickled copy of the shared cache) runs to completion.  Sound judgement for every
+# correct implementation: (result of P, result of Q, everything observed afterwards) equals what the Lean model gives for
+# H+[P,Q]+E or for H+[Q,P]+E; 'no operation raises' and 'len <= max_size' are checked on the implementation's answers directly.
+PRE_EPILOGUE = [["put", 3, 301, 5], ["get", 0], ["get", 1], ["get", 2]]
+IN_LOCK_WAIT = 0.25          # seconds a peer gets to finish inside P's critical section before it counts as blocked
+
+
+def preempt_ops():
+    ops = []
+    for k in (0, 1, 2):                       # 0: the designated victim of H, 1: another (resident when max_size >= 2), 2: new
+        ops += [["get", k], ["put", k], ["has", k]]
+    return ops + [["len"], ["clear"]]
+
+
+def preempt_histories(mx):
+    hs = [[], [["put", 0, 101, 1]]]
+    if mx >= 2:
+        hs += [[["put", 0, 101, 1], ["put", 1, 102, 3]], [["put", 0, 101, 1], ["put", 1, 102, 3], ["get", 0]]]
+    if mx >= 3:
+        hs += [[["put", 0, 101, 1], ["put", 1, 102, 3], ["put", 2, 103, 2]], [["put", 0, 101, 1], ["put", 1, 102, 3], ["put", 2, 103, 2], ["get", 0], ["get", 0]]]
+    return hs
+
+
+def _with_value(op, v, d):
+    return ["put", op[1], v, d] if op[0] == "put" else list(op)
+
+
+class PreSlot:
+    """one shared cache per configuration, reused for every run (creating a manager-backed cache costs ~0.25 s): the parent's
+    object, the worker's pickled copy, and what a dry run found out about each operation (does it take the lock?)"""
+
+    def __init__(self, env, cfg):
+        self.cfg = cfg
+        env.n += 1
+        self.cid = env.n
+        self.cache = make_cache(dict(cfg, shared=True), env.base / f"pre{env.n}")
+        self.target = getattr(self.cache, "lru_cache", None) if cfg["kind"] == "disk" else self.cache    # the object whose lock/containers are wrapped
+        self.err = None
+        r = env.get_workers().call(0, "new", self.cid, pickle.dumps(self.cache))
+        if r[0] != "ok":
+            self.err = f"unpickling the shared cache in a worker raised {r[1]}"
+
+    def drop(self, env):
+        if env.workers:
+            env.workers.call(0, "drop", self.cid)
+        self.cache = self.target = None
+
+
+def pre_probe(cache, kind, keys):
+    pr = probe(cache, kind, keys)
+    if kind == "hybrid" and "err" not in pr:
+        try:
+            ac, du = cache.access_counts, cache.computation_durations
+            pr["ac"] = sorted([KEYS.index(k), int(n)] for k, n in ac.items())
+            pr["du"] = sorted([KEYS.index(k), int(d)] for k, d in du.items())
+        except Exception as e:  # noqa: BLE001
+            pr["err"] = exc_enum(e)
+    return pr
+
+
+def preempt_run(env, slot, case):
+    """one run: reset (public clear), H, then P with Q fired at `case['at']`, then probe, epilogue, probes"""
+    kind, keys = case["kind"], case["keys"]
+    cache = slot.cache
+    out = {"fired": False}
+    for op in [["clear"]] + case["H"]:
+        o = do_op(cache, kind, op)
+        if isinstance(o, dict):
+            out["setup"] = f"set-up {op[0]} raised {o['err']}"
+            return out
+    q = {}
+
+    def act():
+        try:
+            _act()
+        except Exception as e:  # noqa: BLE001 — a broken pipe to the worker must not look like an exception of P
+            q["infra"] = f"{type(e).__name__}: {e}"
+
+    def _act():
+        c = env.get_workers().conns[0]
+        c.send(("op", slot.cid, kind, case["Q"]))
+        if c.poll(IN_LOCK_WAIT if case["at"][0] == "in" else 60):
+            r = c.recv()
+            q["o"] = r[1] if r[0] == "ok" else {"err": r[1]}
+            q["when"] = "inside" if case["at"][0] == "in" else "at-point"
+        elif case["at"][0] == "in":
+            q["pending"] = True
+        else:
+            q["o"] = {"err": "Other:Hang"}
+            q["hang"] = True
+
+    sched = pre.Sched(target=case["at"], action=act)
+    saved, missing = pre.install(slot.target, sched)
+    if saved is None:
+        out["no_lock"] = True
+        return out
+    try:
+        oP = do_op(cache, kind, case["P"])
+    finally:
+        pre.uninstall(slot.target, saved)
+    if q.get("infra"):
+        raise framework.Infra(f"C14 preemption stream: talking to the peer process failed ({q['infra']})")
+    out.update(fired=sched.fired, n_out=sched.n_out, n_in=sched.n_in, trace=sched.trace, fired_at=sched.fired_at,
+               acquires=sched.acquires, unlocked=sched.accesses_unlocked, missing=missing)
+    if not sched.fired:
+        return out
+    if q.get("pending"):
+        c = env.get_workers().conns[0]
+        if c.poll(60):
+            r = c.recv()
+            q["o"] = r[1] if r[0] == "ok" else {"err": r[1]}
+            q["when"] = "blocked-until-release"
+        else:
+            q["o"] = {"err": "Other:Hang"}
+            q["hang"] = True
+    out.update(P=oP, Q=q.get("o"), when=q.get("when"), hang=bool(q.get("hang")))
+    if isinstance(oP, dict) or isinstance(out["Q"], dict):
+        return out
+    out["post"] = pre_probe(cache, kind, keys)
+    if "err" in out["post"]:
+        return out
+    out["E"] = []
+    for op in case["E"]:
+        o = do_op(cache, kind, op)
+        st = {"o": o}
+        out["E"].append(st)
+        if isinstance(o, dict):
+            return out
+    out["final"] = pre_probe(cache, kind, keys)
+    return out
+
+
+def pre_pick(mstep, kind):
+    d = {"present": mstep["present"], "len": mstep["len"], "values": [canon_n(v) for v in mstep["values"]]}
+    if kind == "hybrid":
+        d["ac"] = sorted(list(p) for p in mstep["state"]["ac"])
+        d["du"] = sorted(list(p) for p in mstep["state"]["du"])
+    if kind == "disk":
+        d.pop("values")
+    return d
+
+
+def pre_expected(case, msteps, order):
+    h = len(case["H"])
+    a, b = canon_mstep(msteps[h])["o"], canon_mstep(msteps[h + 1])["o"]
+    kind = case["kind"]
+    return {"P": a if order == "PQ" else b, "Q": b if order == "PQ" else a, "post": pre_pick(msteps[h + 1], kind),
+            "E": [{"o": canon_mstep(s)["o"]} for s in msteps[h + 2:]], "final": pre_pick(msteps[-1], kind)}
+
+
+def pre_diff(obs, exp, fields):
+    """first difference between the observation and one linearisation, restricted to `fields` of the probes"""
+    if obs["P"] != exp["P"]:
+        return f"P answered {obs['P']} (this order gives {exp['P']})"
+    if obs["Q"] != exp["Q"]:
+        return f"Q answered {obs['Q']} (this order gives {exp['Q']})"
+    for f in fields:
+        if f in obs["post"] and obs["post"][f] != exp["post"].get(f):
+            return f"afterwards {f} is {obs['post'][f]} (this order gives {exp['post'].get(f)})"
+    for i, (a, b) in enumerate(zip(obs.get("E", []), exp["E"])):
+        if a["o"] != b["o"]:
+            return f"epilogue step {i} answered {a['o']} (this order gives {b['o']})"
+    for f in fields:
+        if f in obs.get("final", {}) and obs["final"][f] != exp["final"].get(f):
+            return f"at the end {f} is {obs['final'][f]} (this order gives {exp['final'].get(f)})"
+    return None
+
+
+def pre_requests(case):
+    base = {"kind": case["kind"], "max": case.get("max"), "keys": case["keys"]}
+    if case["kind"] == "hybrid":
+        base["weights"] = case["weights"]
+    if case["kind"] == "disk":
+        base["lru"] = case.get("lru")
+    return [to_request(dict(base, ops=case["H"] + [case["P"], case["Q"]] + case["E"])),
+            to_request(dict(base, ops=case["H"] + [case["Q"], case["P"]] + case["E"]))]
+
+
+def pre_clauses(case, obs):
+    """the property's own clauses on the implementation's answers"""
+    mx = case.get("max")
+    for who in ("P", "Q"):
+        if isinstance(obs.get(who), dict):
+            return f"{who} = {case[who][0]} raised {obs[who]['err']}"
+    lens = [(f"{who} = len() answered", obs[who][1]) for who in ("P", "Q") if case[who][0] == "len"]
+    if "post" in obs:
+        if "err" in obs["post"]:
+            return f"probing in/len/cache afterwards raised {obs['post']['err']}"
+        lens.append(("afterwards len is", obs["post"]["len"]))
+    for i, st in enumerate(obs.get("E", [])):
+        if isinstance(st["o"], dict):
+            return f"epilogue step {i} ({case['E'][i][0]}) raised {st['o']['err']}"
+    if "final" in obs:
+        if "err" in obs["final"]:
+            return f"probing in/len/cache at the end raised {obs['final']['err']}"
+        lens.append(("at the end len is", obs["final"]["len"]))
+    if mx is not None and case["kind"] != "disk":
+        for what, n in lens:
+            if n > mx:
+                return f"{what} {n}, max_size is {mx}"
+    return None
+
+
+def preempt_combos(ctx, cfgs):
+    ops = preempt_ops()
+    first, rest = [], []
+    for ci, cfg in enumerate(cfgs):
+        cap = cfg.get("lru") or cfg["max"]
+        for H in preempt_histories(cap):
+            full = len({op[1] for op in H if op[0] == "put"}) >= cap
+            for P in ops:
+                for Q in ops:
+                    # the pairs in which an evicting/emptying peer meets a read or write of the victim come first
+                    hot = full and Q[0] in ("put", "clear") and P[0] in ("get", "put") and len(H) <= cap
+                    (first if hot else rest).append((ci, H, P, Q))
+    ctx.rng.shuffle(rest)
+    return first + rest
+
+
+def preempt_stream(ctx, env):
+    thorough = ctx.tier == "thorough"
+    cfgs = [{"kind": k, "max": mx, "weights": [1, 1], "keys": [0, 1, 2, 3], "cloudpickle": True} for k in ("lru", "hybrid") for mx in (1, 2)]
+    # DiskCache with a shared in-memory LRU (lru_shared=True), max_size=None: the points are those of the LRU's lock and containers
+    cfgs += [{"kind": "disk", "max": None, "lru": n, "keys": [0, 1, 2, 3], "cloudpickle": True} for n in (1, 2)]
+    if thorough:
+        cfgs += [{"kind": k, "max": 3, "weights": [1, 1], "keys": [0, 1, 2, 3], "cloudpickle": True} for k in ("lru", "hybrid")]
+        cfgs += [{"kind": k, "max": 2, "weights": [1, 3], "keys": [0, 1, 2, 3], "cloudpickle": False} for k in ("lru", "hybrid")]
+    budget = ctx.n(300, 2500)
+    slots = {}
+    runs = []                     # (case, obs)
+    lockfree = {}
+    try:
+        for ci, cfg in enumerate(cfgs):
+            slots[ci] = PreSlot(env, cfg)
+            if slots[ci].err:
+                ctx.violation({"stream": "preempt", **cfg}, slots[ci].err)
+                return
+            # dry run: which operations take the lock at all?  (a lock-free peer can run inside P's critical section)
+            for op in (["get", 0], ["put", 0], ["has", 0], ["len"], ["clear"]):
+                case = dict(cfg, H=[["put", 0, 101, 1]], P=_with_value(op, 201, 2), Q=["len"], E=[], at=["none", 0])
+                o = preempt_run(env, slots[ci], case)
+                if o.get("no_lock"):
+                    ctx.count("preempt:no-lock-attr")
+                    return
+                lockfree[(ci, op[0])] = o.get("acquires", 1) == 0
+                ctx.count(f"preempt:dry:{cfg['kind']}:{op[0]}:acquires{o.get('acquires')}:unlocked-accesses{o.get('unlocked')}")
+                for name in o.get("missing", []):
+                    if (name == "_cache_queue") != (cfg["kind"] == "hybrid") or name == "_cache_dict":
+                        ctx.count(f"preempt:no-container:{cfg['kind']}:{name}")
+        # corpus first: the runs that exposed DF-C14-unlocked-len-in (a peer's len()/`in` inside put's critical section; with the
+        # repair the peer blocks until the release), the seeded change C14-s1-B and DF-C14-get-race
+        for c in PRE_CORPUS:
+            ci = next((i for i, cfg in enumerate(cfgs) if cfg["kind"] == c["kind"] and cfg["max"] == c["max"] and cfg.get("lru") == c.get("lru")), None)
+            if ci is None:
+                continue
+            case = dict(cfgs[ci], stream="preempt", E=PRE_EPILOGUE, **{k: c[k] for k in ("H", "P", "Q", "at")})
+            obs = preempt_run(env, slots[ci], case)
+            ctx.count("preempt:corpus" + ("" if obs.get("fired") else ":point-not-reached"))
+            if obs.get("fired") and not obs.get("setup"):
+                runs.append((case, obs))
+        n = 0
+        npoints = {}
+        for ci, H, P0, Q0 in preempt_combos(ctx, cfgs):
+            if n >= budget:
+                ctx.count("preempt:combos-beyond-budget")
+                continue
+            cfg = cfgs[ci]
+            P, Q = _with_value(P0, 201, 2), _with_value(Q0, 202, 4)
+            hp = (ci, json.dumps(H), json.dumps(P))
+            if hp not in npoints:
+                # the points of P up to the one where the peer runs do not depend on the peer: count them once, without a peer
+                o = preempt_run(env, slots[ci], dict(cfg, H=H, P=P, Q=["len"], E=[], at=["none", 0]))
+                n += 1
+                if o.get("setup"):
+                    ctx.violation(dict(cfg, stream="preempt", H=H, P=P, Q=None, at=None), f"{cfg['kind']} shared: {o['setup']}", key="preempt-setup")
+                    npoints[hp] = {"out": 0, "in": 0}
+                else:
+                    npoints[hp] = {"out": min(o["n_out"], 40), "in": min(o["n_in"], 40)}
+                    if o["unlocked"]:
+                        ctx.count(f"preempt:{cfg['kind']}:P={P[0]}:container-accesses-without-the-lock", o["unlocked"])
+            for cls in ("out", "in"):
+                if cls == "in" and not lockfree.get((ci, Q0[0])):
+                    continue
+                for i in range(1, npoints[hp][cls] + 1):
+                    case = dict(cfg, stream="preempt", H=H, P=P, Q=Q, E=PRE_EPILOGUE, at=[cls, i])
+                    obs = preempt_run(env, slots[ci], case)
+                    n += 1
+                    if obs.get("setup") or not obs["fired"]:
+                        ctx.count("preempt:point-not-reached")
+                        continue
+                    runs.append((case, obs))
+                    if obs.get("hang"):
+                        ctx.violation(case, f"{cfg['kind']} shared: the peer's {Q[0]} did not return within 60 s (P = {P[0]} preempted at {cls} point {i}: "
+                                      f"{obs['fired_at']})", key="preempt-hang")
+                        env.workers.close()
+                        env.workers = None
+                        return
+        preempt_judge(ctx, env, runs)
+    finally:
+        for s in slots.values():
+            s.drop(env)
+
+
+def pre_verdict(case, obs, models):
+    """('ok'|'skip'|'clause'|'nonlin'|'counts'|'model-raises', text, expected)"""
+    bad = pre_clauses(case, obs)
+    if bad:
+        return "clause", bad, None
+    if any(m["err"] is not None for m in models.values()):
+        return "model-raises", "the model raises on a linearisation", None
+    if any(near_tie(dict(case, ops=case["H"] + pq + case["E"]), m["steps"], i) for m, pq in
+           ((models["PQ"], [case["P"], case["Q"]]), (models["QP"], [case["Q"], case["P"]])) for i in range(len(m["steps"]))):
+        return "skip", "near-tie", None
+    exps = {o: pre_expected(case, models[o]["steps"], o) for o in ("PQ", "QP")}
+    pub = ("present", "len", "values")
+    d_pub = {o: pre_diff(obs, exps[o], pub) for o in exps}
+    if all(d_pub.values()):
+        return "nonlin", f"no sequential order of P and Q explains what was observed — as P;Q: {d_pub['PQ']}; as Q;P: {d_pub['QP']}", exps
+    if case["kind"] == "hybrid":
+        d_all = {o: pre_diff(obs, exps[o], pub + ("ac", "du")) for o in exps if not d_pub[o]}
+        if all(d_all.values()):
+            return "counts", "access_counts/computation_durations afterwards fit neither order — " + "; ".join(f"as {o}: {d}" for o, d in d_all.items()), exps
+    return "ok", "+".join(o for o in d_pub if not d_pub[o]), exps
+
+
+def pre_tag(case, obs):
+    return (f"{case['kind']} shared, P = {case['P']} preempted at {case['at'][0]}-point {case['at'][1]} ({obs.get('fired_at')}) by a peer process "
+            f"running Q = {case['Q']}")
+
+
+def preempt_judge(ctx, env, runs):
+    reqs, index = [], {}
+    for case, _ in runs:
+        key = json_key(case)
+        if key not in index:
+            index[key] = len(reqs)
+            reqs += pre_requests(case)
+    outs = ctx.lean(reqs) if reqs else []
+    fresh_runs = 0
+    seen_classes = collections.Counter()
+    for case, obs in runs:
+        kind = case["kind"]
+        j = index[json_key(case)]
+        models = {"PQ": outs[j]["r"], "QP": outs[j + 1]["r"]}
+        slim = {k: v for k, v in case.items() if k != "cloudpickle" or not v}
+        ctx.count(f"preempt:{kind}:P={case['P'][0]}:at={case['at'][0]}:{re.sub('[^A-Za-z_.]', '', str(obs['fired_at']))}")
+        ctx.count(f"preempt:{kind}:Q={case['Q'][0]}:{obs.get('when')}")
+        ctx.count("preempt:runs")
+        ctx.record(slim, case["P"][0] in ("get", "put") and case["Q"][0] in ("put", "clear"))
+        cls, text, exps = pre_verdict(case, obs, models)
+        if cls == "ok":
+            ctx.count(f"preempt:explained-as:{text}")
+            continue
+        if cls == "skip":
+            ctx.skip("preempt-hybrid-near-tie")
+            continue
+        vkey = f"preempt:{kind}:{cls}:{case['P'][0]}:{case['Q'][0]}"
+        seen_classes[vkey] += 1
+        if seen_classes[vkey] > 2 or len(seen_classes) > 8:
+            ctx.count("preempt:further-failures-of-a-reported-class")
+            continue
+        shown = {k: obs.get(k) for k in ("P", "Q", "when", "post", "E", "final", "trace")}
+        if cls == "model-raises":
+            ctx.violation(slim, f"{text} of {pre_tag(case, obs)}", found_input=False, item="correspondence:model-raises", key=vkey)
+            continue
+        # the run used a cache that had served earlier runs (reset with the public clear()): confirm on a new cache
+        obs2, slot = None, None
+        if fresh_runs < 16:
+            fresh_runs += 1
+            try:
+                slot = PreSlot(env, {k: case[k] for k in ("kind", "max", "weights", "keys", "cloudpickle", "lru") if k in case})
+                if not slot.err:
+                    obs2 = preempt_run(env, slot, case)
+                    if cls == "counts" and obs2.get("fired") and preempt_search_counts(ctx, env, slot, case, slim, pre_tag(case, obs2)):
+                        continue
+            finally:
+                if slot:
+                    slot.drop(env)
+        if obs2 is not None and obs2.get("fired"):
+            cls2, text2, _ = pre_verdict(case, obs2, models)
+            if cls2 != cls:
+                ctx.violation(slim, f"{pre_tag(case, obs)}: {text} — but only on a cache that had been used and cleared before (a new cache: {cls2})",
+                              found_input=False, item="correspondence:preempt-reused-cache", impl=shown, model=exps, key=vkey)
+                continue
+            text, shown = text2, {k: obs2.get(k) for k in ("P", "Q", "when", "post", "E", "final", "trace")}
+        if cls == "counts":
+            ctx.violation(slim, f"{pre_tag(case, obs)}: {text}", found_input=False, item="correspondence:preempt-scoring-inputs", impl=shown, model=exps, key=vkey)
+        else:
+            ctx.violation(slim, f"{pre_tag(case, obs)}: {text}", impl=shown, model=exps, key=vkey)
+
+
+def json_key(case):
+    return json.dumps([case["kind"], case["max"], case.get("weights"), case.get("lru"), case["H"], case["P"], case["Q"], case["E"]])
+
+
+def preempt_search_counts(ctx, env, slot, case, slim, tag):
+    """continuations after P||Q that make a wrong access count / duration visible as a wrong eviction or an exception"""
+    for extra in ([["put", 3, 301, 1], ["put", 0, 302, 1], ["put", 1, 303, 1]], [["put", 3, 301, 9], ["put", 2, 302, 1], ["put", 0, 303, 9]],
+                  [["get", 0], ["put", 3, 301, 3], ["put", 1, 302, 2]], [["get", 1], ["get", 1], ["put", 3, 301, 2], ["put", 0, 302, 2]]):
+        c2 = dict(case, E=extra)
+        obs = preempt_run(env, slot, c2)
+        if not obs.get("fired") or obs.get("setup"):
+            continue
+        outs = ctx.lean(pre_requests(c2))
+        cls, text, exps = pre_verdict(c2, obs, {"PQ": outs[0]["r"], "QP": outs[1]["r"]})
+        if cls in ("clause", "nonlin"):
+            ctx.violation(dict(slim, E=extra), f"{tag}: {text}", impl={k: obs.get(k) for k in ("P", "Q", "post", "E", "final", "trace")}, model=exps,
+                          key=f"preempt:hybrid:counts:{cls}")
+            return True
+    return False
+
+
 # ------------------------------------------------------------------------------------------------ corpus
+@framework.finding_matcher("c14_disk_put_clear_window")
+def _kf_disk_put_clear(case, params, impl, model):
+    """KF-C14-disk-put-not-atomic, narrowly: preemption stream, DiskCache, P = put(k) preempted by a peer's clear() between the
+    file write and `lru_cache.put`; nothing raised; afterwards exactly k is answered (from the LRU) and the directory is empty.
+    Anything else on such a pair (an exception, another key present, a wrong value) is still reported."""
+    if not (isinstance(case, dict) and case.get("stream") == "preempt" and case.get("kind") == "disk" and isinstance(impl, dict)):
+        return False
+    if case["P"][0] != "put" or case["Q"] != ["clear"] or impl.get("P") != "unit" or impl.get("Q") != "unit":
+        return False
+    post = impl.get("post") or {}
+    return post.get("len") == 0 and post.get("present") == [case["P"][1]] and all(not isinstance(st.get("o"), dict) for st in impl.get("E") or [])
+
+
+def ensure_findings(ctx):
+    """the finding of this extension travels in fixes/C14/ext/known_findings_entries.json until the integrator has merged it into
+    known_findings.json (a shared file this module must not edit)"""
+    ext = Path(__file__).resolve().parents[2] / "fixes" / "C14" / "ext" / "known_findings_entries.json"
+    if not ext.exists():
+        return
+    have = {f["id"] for f in ctx.findings}
+    for e in json.loads(ext.read_text()):
+        if e.get("property") == PID and e.get("status") == "finding" and e["id"] not in have:
+            ctx.findings.append(e)
+
+
+PRE_CORPUS = [
+    {"kind": "disk", "max": None, "lru": 1, "H": [["put", 0, 101, 1]], "P": ["get", 0], "Q": ["put", 1, 202, 4], "at": ["out", 2]},
+    {"kind": "disk", "max": None, "lru": 1, "H": [["put", 0, 101, 1]], "P": ["get", 0], "Q": ["put", 1, 202, 4], "at": ["out", 3]},
+    {"kind": "lru", "max": 2, "H": [["put", 0, 101, 1], ["put", 1, 102, 3]], "P": ["put", 2, 201, 2], "Q": ["len"], "at": ["in", 3]},
+    {"kind": "hybrid", "max": 1, "H": [["put", 0, 101, 1]], "P": ["put", 0, 201, 2], "Q": ["has", 0], "at": ["in", 8]},
+    {"kind": "hybrid", "max": 1, "H": [["put", 0, 101, 1]], "P": ["put", 1, 201, 2], "Q": ["len"], "at": ["in", 9]},
+    {"kind": "hybrid", "max": 1, "H": [["put", 0, 101, 1]], "P": ["get", 0], "Q": ["put", 2, 202, 4], "at": ["out", 2]},
+    {"kind": "hybrid", "max": 2, "H": [["put", 0, 101, 1], ["put", 1, 102, 3]], "P": ["get", 0], "Q": ["put", 2, 202, 4], "at": ["out", 2]},
+    {"kind": "lru", "max": 1, "H": [["put", 0, 101, 1]], "P": ["get", 0], "Q": ["put", 2, 202, 4], "at": ["out", 1]},
+    {"kind": "lru", "max": 2, "H": [["put", 0, 101, 1], ["put", 1, 102, 3]], "P": ["get", 0], "Q": ["clear"], "at": ["out", 2]},
+]
+
 CORPUS = [
     # DF-01: a re-put of a resident key queued it twice; the fourth distinct key then popped a key that had left the dict
     {"kind": "lru", "max": 2, "keys": [0, 1, 2, 3], "ops": [["put", 0, 1, 0], ["put", 0, 2, 0], ["put", 1, 3, 0], ["put", 2, 4, 0], ["put", 3, 5, 0]]},
@@ -782,26 +1337,63 @@ CORPUS = [
 
 
 def run(ctx):
+    ensure_findings(ctx)
     env = Env()
     try:
         ctx.notes.append(f"st_ctime_ns: {env.spacer.distinct}/300 distinct stamps over back-to-back rewrites of one file, smallest step "
                          f"{env.spacer.granularity_ns} ns, {env.spacer.per_write * 1e6:.0f} us per write (measured on {env.base.parent})")
-        shared_n = ctx.n(60, 1500)
+        shared_n = ctx.n(34, 400)     # whole-operation interleavings from 2 more processes are also the first/last points of the preemption stream
         cases = [copy.deepcopy(c) for c in CORPUS]
         cases += exploration_cases(ctx)
-        cases += [gen_case(ctx.rng) for _ in range(ctx.n(400, 30000))]
+        cases += [gen_case(ctx.rng) for _ in range(ctx.n(280, 30000))]
         cases += zero_duration_cases(ctx)
         cases += [gen_case(ctx.rng, kind=ctx.rng.choice(["lru", "lru", "hybrid", "hybrid", "disk"]), shared=True, maxlen=16) for _ in range(shared_n)]
+        cases += interleave_cases(ctx)
+        t0 = time.time()
         check_cases(ctx, env, cases)
+        t1 = time.time()
         malformed_stream(ctx, env)
+        preempt_stream(ctx, env)
+        t2 = time.time()
         soak(ctx, env)
+        ctx.notes.append(f"wall split: histories {t1 - t0:.0f} s, malformed + preemption stream {t2 - t1:.0f} s, soak {time.time() - t2:.0f} s")
         ctx.count("disk:ctime-spacing-spins", env.spacer.spins)
     finally:
         env.close()
 
 
+def replay_preempt(ctx, env, case):
+    slot = PreSlot(env, {k: case[k] for k in ("kind", "max", "weights", "keys", "cloudpickle", "lru") if k in case})
+    try:
+        print(f"{case['kind']}(max_size={case['max']}, shared=True); history {case['H']}; then P = {case['P']} in this process, preempted at "
+              f"{case['at'][0]}-point {case['at'][1]} by Q = {case['Q']} run to completion in a second process; then {case['E']}")
+        obs = preempt_run(env, slot, case)
+        print("implementation:")
+        for k in ("fired", "fired_at", "when", "P", "Q", "post", "E", "final"):
+            print("  ", k, "=", obs.get(k))
+        print("   points of P:", obs.get("trace"))
+        if not obs.get("fired"):
+            print("the preemption point was not reached")
+            return
+        outs = ctx.lean(pre_requests(case))
+        models = {"PQ": outs[0]["r"], "QP": outs[1]["r"]}
+        for o in ("PQ", "QP"):
+            if models[o]["err"] is None:
+                print(f"model, order {o}:", pre_expected(case, models[o]["steps"], o))
+            else:
+                print(f"model, order {o}: raises", models[o]["err"])
+        print("verdict:", pre_verdict(case, obs, models)[:2])
+    finally:
+        slot.drop(env)
+
+
 def replay(ctx, case):
     env = Env()
+    if case.get("stream") == "preempt":
+        try:
+            return replay_preempt(ctx, env, case)
+        finally:
+            env.close()
     try:
         steps, bad = run_impl(env, case)
         print("implementation:")
@@ -811,7 +1403,7 @@ def replay(ctx, case):
         r = ctx.lean([to_request(case)])[0]["r"]
         print("model:")
         for op, s in zip(case["ops"], r["steps"]):
-            print("  ", op, "->", {k: s.get(k) for k in ("o", "present", "len", "values")}, s["state"])
+            print("  ", op, "->", {k: canon_mstep(s).get(k) for k in ("o", "present", "len", "values")}, s["state"])
         print("model err:", r["err"])
     finally:
         env.close()
